@@ -151,6 +151,31 @@ def h_index_maps_rev(ctx, d, q):
     ctx.claim('roundtrip_qtt_tt_qtt', ctx.all_([ctx.eq(B[k], b[k]) for k in range(d * q)]))
 
 
+def h_index_maps_sequence(ctx, combos):
+    """Several (d, q) with the same number of bits d*q converted one after the
+    other in ONE process (symbolic bit vectors): each conversion depends on its
+    own arguments only."""
+    for t, (d, q) in enumerate(combos):
+        if t < len(combos) - 1:
+            # (the earlier conversions run on a fixed bit pattern: they only have to have happened)
+            b = np.array([(k * 5 + t) % 2 for k in range(d * q)])
+        else:
+            b = _ivec(ctx, f'b{t}_', d * q)
+            for x in b:
+                ctx.assume(ctx.ge(x, 0))
+                ctx.assume(ctx.le(x, 1))
+        J = teneva.ind_qtt_to_tt(b, q)
+        ctx.claim('shape', len(J) == d)
+        if len(J) == d:
+            ctx.claim('value', ctx.all_([ctx.eq(J[m], sum((b[m * q + k] * (1 << k) for k in range(q)), ctx.const(0)))
+                                         for m in range(d)]))
+        Jb = teneva.ind_qtt_to_tt(np.array([list(b), list(b)]), q)
+        ctx.claim('batch_equals_single', Jb.shape == (2, d) and bool(ctx.all_([ctx.eq(Jb[1, m], J[m]) for m in range(d)]))
+                  if len(J) == d else False)
+        Bq = teneva.ind_tt_to_qtt(J, 1 << q)
+        ctx.claim('roundtrip_qtt_tt_qtt', ctx.all_([ctx.eq(Bq[k], b[k]) for k in range(d * q)]))
+
+
 def h_non_power_of_two(ctx, n):
     I = _ivec(ctx, 'i', 2)
     ctx.raises(ValueError, 'ind_map_rejects', teneva.ind_tt_to_qtt, I, n)
@@ -283,6 +308,9 @@ def instances(tier):
     for d, q in [(2, 1), (2, 2), (3, 1)]:
         for layout in ('F', 'T'):
             out.append({'func': 'h_index_maps_layout', 'params': {'d': d, 'q': q, 'layout': layout}})
+    out.append({'func': 'h_index_maps_sequence', 'params': {'combos': [[2, 2], [4, 1], [1, 4]]}})
+    out.append({'func': 'h_index_maps_sequence', 'params': {'combos': [[1, 4], [2, 2]]}})
+    out.append({'func': 'h_index_maps_sequence', 'params': {'combos': [[3, 2], [2, 3]]}})
     out.append({'func': 'h_concrete_redundant_ranks', 'params': {}, 'opts': {'concrete_only': True}})
     out.append({'func': 'h_concrete_large_q', 'params': {}, 'opts': {'concrete_only': True}})
     for n in (3, 6):
